@@ -6,9 +6,18 @@ The harness is the stream peer (plain signals on the stream interface):
   from the PRNG) and a protocol monitor on `o.valid` / `o.payload`.
 * kind "sink":   StreamSink; the harness is a protocol-abiding producer (`i.valid`, `i.payload`; an
   offer is kept until accepted), real AdapterTrans on `read` and `peek`.
-* kind "wrap":   StreamModuleWrapper around a small registered pass-through stream module defined
-  here (a STUB: `PassThrough`, three internal variants, with a free `stall` input), real AdapterTrans
-  on `write` and `read`.
+* kind "wrap":   StreamModuleWrapper around a small registered stream module defined here (a STUB:
+  `PassThrough`, three internal variants, with a free `stall` input; its output payload may have another
+  shape than its input payload, then it emits a fixed bit-level function of what it received), real
+  AdapterTrans on `write` and `read`; the stub's two stream interfaces are observed as well.
+
+Payload shapes (cfg["shape"], cfg["oshape"]): an int (unsigned), ["s", w], ["enum", w], ["arr", elem, n] or a
+list of [name, shape] (struct, may nest).  Ports are the scalar leaves of the payload.
+
+Every method must carry the payload with the shape its stream has (compared structurally: field names, widths,
+signedness, enum / array / struct nesting): the same bits read with another shape are another value (-1 vs 255,
+other fields).  The wrapper's `read` is compared leaf by leaf with what the stub's output payload must hold, its
+readiness with the stub's `o.valid`, and the stub's input stream is monitored like a StreamSource output.
 """
 
 from __future__ import annotations
@@ -30,25 +39,154 @@ def capacity(cfg):
     return 0
 
 
+_ENUMS: dict = {}
+
+
+def _enum(w):
+    """An enumeration in which every bit pattern is a member (one class per width: equal shapes must be the same class)."""
+    if w not in _ENUMS:
+        import types
+
+        from amaranth.lib import enum
+
+        def fill(ns):
+            for i in range(1 << w):
+                ns[f"M{i}"] = i
+
+        _ENUMS[w] = types.new_class(f"E{w}", (enum.Enum,), {"shape": w}, fill)
+    return _ENUMS[w]
+
+
 def _shape(spec):
-    from amaranth.lib.data import StructLayout
+    from amaranth import signed
+    from amaranth.lib.data import ArrayLayout, StructLayout
 
     if isinstance(spec, int):
         return spec
-    return StructLayout({n: w for n, w in spec})
+    if isinstance(spec[0], str):
+        if spec[0] == "s":
+            return signed(spec[1])
+        if spec[0] == "enum":
+            return _enum(spec[1])
+        return ArrayLayout(_shape(spec[1]), spec[2])
+    return StructLayout({n: _shape(w) for n, w in spec})
 
 
-def make_passthrough(shape, variant, depth):
+def spec_width(spec):
+    if isinstance(spec, int):
+        return spec
+    if isinstance(spec[0], str):
+        return spec[1] if spec[0] in ("s", "enum") else spec_width(spec[1]) * spec[2]
+    return sum(spec_width(w) for _, w in spec)
+
+
+def shape_kinds(spec, top=True):
+    if isinstance(spec, int):
+        return set()
+    if isinstance(spec[0], str):
+        if spec[0] == "s":
+            return {"signed"}
+        if spec[0] == "enum":
+            return {"enum"}
+        return {"array"} | shape_kinds(spec[1], False)
+    out = set() if top else {"nested_struct"}
+    for _, w in spec:
+        out |= shape_kinds(w, False)
+    return out
+
+
+def canon_spec(spec):
+    """Structure of a payload shape spec: nested tuples, comparable with canon_shape of a real shape."""
+    if isinstance(spec, int):
+        return ("u", spec)
+    if isinstance(spec[0], str):
+        if spec[0] in ("s", "enum"):
+            return (spec[0], spec[1])
+        return ("arr", canon_spec(spec[1]), spec[2])
+    return ("struct", tuple((n, canon_spec(w)) for n, w in spec))
+
+
+def canon_shape(shape):
+    """Structure of an Amaranth shape.  (Amaranth's own `==` between layouts is too forgiving for this purpose:
+    a struct field compares equal to a plain unsigned field of the same width.)"""
+    from amaranth import Shape
+    from amaranth.lib import enum
+    from amaranth.lib.data import ArrayLayout, StructLayout
+
+    if isinstance(shape, StructLayout):
+        return ("struct", tuple((n, canon_shape(f.shape)) for n, f in shape))
+    if isinstance(shape, ArrayLayout):
+        return ("arr", canon_shape(shape.elem_shape), shape.length)
+    if isinstance(shape, enum.EnumType):
+        return ("enum", Shape.cast(shape).width)
+    sh = Shape.cast(shape)
+    return ("s" if sh.signed else "u", sh.width)
+
+
+def spec_leafs(spec, suffix="", off=0):
+    """[(port suffix, bit offset, width, signed)] of the scalar leaves of a payload of shape `spec`, in the order
+    of `leaves`."""
+    if isinstance(spec, int):
+        return [(suffix, off, spec, False)]
+    if isinstance(spec[0], str):
+        if spec[0] in ("s", "enum"):
+            return [(suffix, off, spec[1], spec[0] == "s")]
+        out, ew = [], spec_width(spec[1])
+        for i in range(spec[2]):
+            out += spec_leafs(spec[1], f"{suffix}.{i}", off + i * ew)
+        return out
+    out = []
+    for n, w in spec:
+        out += spec_leafs(w, f"{suffix}.{n}", off)
+        off += spec_width(w)
+    return out
+
+
+def unpack(raw, leafs):
+    """The values the leaves of a payload with bits `raw` have (a signed leaf reads as a negative number)."""
+    vals = []
+    for _, off, w, sg in leafs:
+        v = (raw >> off) & ((1 << w) - 1)
+        if sg and v >> (w - 1):
+            v -= 1 << w
+        vals.append(v)
+    return tuple(vals)
+
+
+def xform(raw, iw, ow, k):
+    """What the stub emits (as bits) for received bits `raw`: the input repeated up to the output width, xor k.
+    The identity when both payloads have the same width and k == 0."""
+    rep = 0
+    for j in range((ow + iw - 1) // iw):
+        rep |= raw << (iw * j)
+    return (rep & ((1 << ow) - 1)) ^ k
+
+
+def rleaves(v):
+    """leaves() with every leaf as a plain Value (an enum leaf would otherwise be read back as an enum member)."""
+    from amaranth import Value
+
+    return [(path, Value.cast(sig)) for path, sig in leaves(v)]
+
+
+def make_passthrough(shape, variant, depth, oshape=None, k=0):
     """The stub wrapped by StreamModuleWrapper: a registered pass-through with stream interfaces."""
-    from amaranth import Module, Signal, Value
+    from amaranth import Cat, Module, Signal, Value
     from amaranth.lib import stream, wiring
     from amaranth.lib.fifo import SyncFIFOBuffered
     from amaranth.lib.wiring import In, Out
 
+    if oshape is None:
+        oshape = shape
+
     class PassThrough(wiring.Component):
         def __init__(self):
-            super().__init__({"i": In(stream.Signature(shape)), "o": Out(stream.Signature(shape))})
+            super().__init__({"i": In(stream.Signature(shape)), "o": Out(stream.Signature(oshape))})
             self.stall = Signal()
+
+        def emit(self, raw):
+            iw, ow = len(raw), len(Value.cast(self.o.payload))
+            return Cat(*[raw] * ((ow + iw - 1) // iw))[:ow] ^ k
 
         def elaborate(self, platform):
             m = Module()
@@ -58,14 +196,14 @@ def make_passthrough(shape, variant, depth):
                     f.w_data.eq(Value.cast(self.i.payload)),
                     f.w_en.eq(self.i.valid & ~self.stall),
                     self.i.ready.eq(f.w_rdy & ~self.stall),
-                    Value.cast(self.o.payload).eq(f.r_data),
+                    Value.cast(self.o.payload).eq(self.emit(f.r_data)),
                     self.o.valid.eq(f.r_rdy),
                     f.r_en.eq(self.o.ready),
                 ]
                 return m
             full = Signal()
             buf = Signal(len(Value.cast(self.i.payload)))
-            m.d.comb += Value.cast(self.o.payload).eq(buf)
+            m.d.comb += Value.cast(self.o.payload).eq(self.emit(buf))
             m.d.comb += self.o.valid.eq(full)
             if variant == "pipe":  # accepts while being emptied (combinational ready path)
                 m.d.comb += self.i.ready.eq((~full | self.o.ready) & ~self.stall)
@@ -83,18 +221,23 @@ def make_passthrough(shape, variant, depth):
 
 class Scen(CompScenario):
     def build(self):
+        from amaranth import Value
         from transactron.lib.stream import StreamModuleWrapper, StreamSink, StreamSource
 
         c = self.cfg
         self.kind = c["kind"]
         shape = _shape(c["shape"])
+        self.peeks = ["peek"]
         if self.kind == "source":
             self.dut = StreamSource(shape)
             self.top.add("dut", self.dut)
             self.caller("write", self.dut.write)
+            if c.get("wtwin"):
+                self.twin("write", self.dut.write)  # two producers sharing the write method
             self.add_input("o.ready", self.dut.o.ready)
             self.add_obs("o.valid", self.dut.o.valid)
             self.pl = self._payload_ports("o.payload", self.dut.o.payload, obs=True)
+            self._leafinfo(self.dut.o.payload)
         elif self.kind == "sink":
             self.dut = StreamSink(shape)
             self.top.add("dut", self.dut)
@@ -102,21 +245,55 @@ class Scen(CompScenario):
             if c.get("twin"):
                 self.twin("read", self.dut.read)  # two consumers sharing the consuming read
             self.caller("peek", self.dut.peek)
+            if c.get("peek2"):
+                self.caller("peek2", self.dut.peek)  # a second, independent observer
+                self.peeks.append("peek2")
             self.add_input("i.valid", self.dut.i.valid)
             self.add_obs("i.ready", self.dut.i.ready)
             self.pl = self._payload_ports("i.payload", self.dut.i.payload, obs=False)
+            self._leafinfo(self.dut.i.payload)
         else:
-            self.stub = make_passthrough(shape, c["stub"], c["stub_depth"])
-            self.dut = StreamModuleWrapper(self.stub)
+            oshape = _shape(c["oshape"]) if c.get("oshape") is not None else None
+            self.stub = stub = make_passthrough(shape, c["stub"], c["stub_depth"], oshape, c.get("xk", 0))
+            self.dut = StreamModuleWrapper(stub)
             self.top.add("dut", self.dut)
-            self.caller("write", self.dut.write)
-            self.caller("read", self.dut.read)
+            w = self.caller("write", self.dut.write)
+            self.add_obs("write.raw", w.data_in.as_value())
+            if c.get("wtwin"):
+                self.twin("write", self.dut.write)
+                self.add_obs("write_twin.raw", self.callers["write_twin"].data_in.as_value())
+            r = self.caller("read", self.dut.read)
+            self.add_obs("read.raw", r.data_out.as_value())
             if c.get("twin"):
                 self.twin("read", self.dut.read)
-            self.add_input("stall", self.stub.stall)
-            self.pl = [("" if p == "v" else "." + p) for p, _ in leaves(self.stub.i.payload)]
-        self.wmask = [(1 << w) - 1 for w in self._leaf_widths(c["shape"])]
+                self.add_obs("read_twin.raw", self.callers["read_twin"].data_out.as_value())
+            self.add_input("stall", stub.stall)
+            # the wrapped module's own stream interfaces (bits)
+            self.add_obs("m.i.valid", stub.i.valid)
+            self.add_obs("m.i.ready", stub.i.ready)
+            self.add_obs("m.i.raw", Value.cast(stub.i.payload).as_unsigned())
+            self.add_obs("m.o.valid", stub.o.valid)
+            self.add_obs("m.o.ready", stub.o.ready)
+            self.add_obs("m.o.raw", Value.cast(stub.o.payload).as_unsigned())
+            self.pl = [("" if p == "v" else "." + p) for p, _ in leaves(stub.i.payload)]
+            self._leafinfo(stub.i.payload)
+            self.iw = len(Value.cast(stub.i.payload))
+            self.ow = len(Value.cast(stub.o.payload))
+        # the methods carry the payload with the shape the stream has (a value of another shape is another value)
+        ospec = c["oshape"] if c.get("oshape") is not None else c["shape"]
+        for name, at in self.callers.items():
+            if name.startswith("write"):
+                got, want = at.data_in.shape(), c["shape"]
+            else:
+                got, want = at.data_out.shape(), (ospec if self.kind == "wrap" else c["shape"])
+            self.expect(canon_shape(got) == ("struct", (("data", canon_spec(want)),)), "method-layout-mismatch",
+                        f"{name} carries {got!r}, the stream payload it stands for has the shape {_shape(want)!r}",
+                        port=name.split("_")[0])
+        self.oleafs = spec_leafs(ospec)
+        for k in sorted(shape_kinds(c["shape"]) | (shape_kinds(c["oshape"]) if c.get("oshape") is not None else set())):
+            self.hit("payload_" + k)
         self.pending: list = []  # written / offered, not yet transferred (oldest first)
+        self.inmod: list = []  # wrapper: handed to the wrapped module, not yet read
         self.tag = 0
         self.prev_valid = 0
         self.prev_transfer = 0
@@ -128,13 +305,16 @@ class Scen(CompScenario):
         self.drain = max(DRAIN, self.quiet_bound)
         return self.top
 
-    @staticmethod
-    def _leaf_widths(spec):
-        return [spec] if isinstance(spec, int) else [w for _, w in spec]
+    def _leafinfo(self, payload):
+        """(width, signed) of every scalar leaf of the payload, in port order."""
+        self.leaf = []
+        for _, sig in rleaves(payload):
+            sh = sig.shape()
+            self.leaf.append((sh.width, sh.signed))
 
     def _payload_ports(self, base, payload, obs):
         sufs = []
-        for path, sig in leaves(payload):
+        for path, sig in rleaves(payload):
             suf = "" if path == "v" else "." + path
             sufs.append(suf)
             if obs:
@@ -143,13 +323,35 @@ class Scen(CompScenario):
                 self.add_input(base + suf, sig)
         return sufs
 
+    def caller(self, name, method):
+        """Like CompScenario.caller, with every data leaf as a plain Value."""
+        from transactron.lib import AdapterTrans
+
+        at = AdapterTrans.create(method)
+        self.top.add(f"at_{name}", at)
+        self.add_input(f"{name}.en", at.en)
+        for path, sig in rleaves(at.data_in):
+            self.add_input(f"{name}.i.{path}", sig)
+        self.add_obs(f"{name}.done", at.done)
+        for path, sig in rleaves(at.data_out):
+            self.add_obs(f"{name}.o.{path}", sig)
+        self.callers[name] = at
+        return at
+
+    def _leafval(self, k, bits):
+        w, sg = self.leaf[k]
+        bits &= (1 << w) - 1
+        if sg and bits >> (w - 1):
+            bits -= 1 << w
+        return bits
+
     def fresh(self, rng):
         """A payload never used before in this run (tag in the first leaf, noise elsewhere)."""
         self.tag += 1
-        vals = []
-        for k, mask in enumerate(self.wmask):
-            vals.append((self.tag if k == 0 else rng.getrandbits(16)) & mask)
-        return tuple(vals)
+        return tuple(self._leafval(k, self.tag if k == 0 else rng.getrandbits(16)) for k in range(len(self.leaf)))
+
+    def garbage(self, rng):
+        return tuple(self._leafval(k, rng.getrandbits(16)) for k in range(len(self.leaf)))
 
     # ---- stimulus -------------------------------------------------------------------------
     def stimulus(self, rng, cyc):
@@ -177,21 +379,31 @@ class Scen(CompScenario):
                 stim["i.valid"] = 1
                 vals = self.offer
             else:  # payload is free while valid is low: drive garbage
-                vals = tuple(rng.getrandbits(16) & m for m in self.wmask)
+                vals = self.garbage(rng)
             for suf, v in zip(self.pl, vals):
                 stim["i.payload" + suf] = v
             stim["read.en"] = int(rng.random() < pr) if not drain else 1
             stim["peek.en"] = int(rng.random() < c["p_peek"])
+            if c.get("peek2"):
+                stim["peek2.en"] = int(rng.random() < 0.6)
         else:
             stim["write.en"] = 0 if drain else int(rng.random() < pw)
             stim["read.en"] = 1 if drain else int(rng.random() < pr)
             stim["stall"] = 0 if drain else int(rng.random() < c["p_stall"])
             for suf, v in zip(self.pl, self.fresh(rng)):
                 stim["write.i.data" + suf] = v
-        return self.twin_stim(rng, stim)
+        if c.get("wtwin") and self.kind != "sink":
+            for suf, v in zip(self.pl, self.fresh(rng)):  # the second producer has items of its own
+                stim["write_twin.i.data" + suf] = v
+        stim = self.twin_stim(rng, stim)
+        if drain and c.get("wtwin") and self.kind != "sink":
+            stim["write_twin.en"] = 0
+        return stim
 
     # ---- oracle -----------------------------------------------------------------------------
     def check(self, cyc, stim, obs):
+        # which producer's data was written, if the write was executed (fold_twins refuses "both")
+        self.wpref = "write_twin.i.data" if obs.get("write_twin.done") else "write.i.data"
         stim, obs = self.fold_twins(stim, obs)
         getattr(self, "check_" + self.kind)(cyc, stim, obs)
 
@@ -209,7 +421,7 @@ class Scen(CompScenario):
                         f"payload changed from {self.prev_payload} to {payload} while valid and not accepted")
         self.expect(not done or en, "ran-when-not-callable", f"write done without request")
         if done:
-            self.pending.append(self._vals(stim, "write.i.data"))
+            self.pending.append(self._vals(stim, self.wpref))
             self.hit("written")
         transfer = bool(valid and ready)
         if transfer:
@@ -249,13 +461,15 @@ class Scen(CompScenario):
         if self.prev_valid and not self.prev_transfer:
             self.premise(valid and payload == self.prev_payload, "producer withdrew or changed an offer")
         done = {}
-        for p in ("read", "peek"):
+        for p in ["read"] + self.peeks:
             en = stim.get(f"{p}.en", 0)
             done[p] = obs[f"{p}.done"]
-            # "read is ready iff valid"; of peek the statement only says that it never consumes
+            # "read is ready iff valid" (both directions: a requesting caller can run exactly when valid);
+            # of peek the statement only says that it never consumes
             if en and p == "read":
                 self.expect(obs[f"{p}.runnable"] == valid, "ready-mismatch",
                             f"{p} callable={obs[f'{p}.runnable']} but valid={valid}", port=p)
+                self.hit("read_ready_judged_valid" if valid else "read_ready_judged_not_valid")
             elif en and obs[f"{p}.runnable"] != valid:
                 self.hit("peek_callable_differs_from_valid")
             self.expect(not done[p] or (en and valid), "ran-when-not-callable",
@@ -268,11 +482,12 @@ class Scen(CompScenario):
                 if p == "read" or valid:
                     self.expect(got == payload, "data-mismatch", f"{p} returned {got}, stream offers {payload}", port=p)
         transfer = bool(valid and ready)
+        npeek = sum(done[p] for p in self.peeks)
         if done["read"]:
             self.expect(transfer, "read-did-not-consume", f"read executed but ready={ready}: the payload stays offered")
         else:
             self.expect(not ready, "consumed-without-read",
-                        f"ready={ready} without an executed read (peek done={done['peek']}, valid={valid})")
+                        f"ready={ready} without an executed read ({npeek} peek(s) executed, valid={valid})")
         # what fired
         if done["read"]:
             self.hit("read_consumed")
@@ -280,6 +495,12 @@ class Scen(CompScenario):
             self.hit("peek_without_read")
         if done["peek"] and done["read"]:
             self.hit("read_and_peek_same_cycle")
+        if npeek == 2:
+            self.hit("two_peeks_same_cycle")
+            if not done["read"]:
+                self.hit("two_peeks_without_read")
+        if len(self.peeks) == 2 and npeek == 1 and stim.get("peek.en") and stim.get("peek2.en"):
+            self.hit("one_of_two_requested_peeks_served")
         if stim.get("read.en") and not valid:
             self.hit("read_refused_no_valid")
         if stim.get("peek.en") and not valid:
@@ -288,28 +509,64 @@ class Scen(CompScenario):
             self.hit("offer_stalled")
         if transfer and self.prev_transfer:
             self.hit("back_to_back_transfers")
-        self.visit((valid, stim.get("read.en", 0), stim.get("peek.en", 0), done["read"], done["peek"], self.prev_transfer),
-                   nontrivial=bool(valid))
+        self.visit((valid, stim.get("read.en", 0), stim.get("peek.en", 0), done["read"], done["peek"], self.prev_transfer,
+                    stim.get("peek2.en", 0), done.get("peek2", 0)), nontrivial=bool(valid))
         if transfer:
             self.offer = None
         self.prev_valid, self.prev_transfer, self.prev_payload = valid, transfer, payload
 
     def check_wrap(self, cyc, stim, obs):
+        c = self.cfg
         wen, wdone = stim.get("write.en", 0), obs["write.done"]
         ren, rdone = stim.get("read.en", 0), obs["read.done"]
         self.expect(not wdone or wen, "ran-when-not-callable", "write done without request", port="write")
         self.expect(not rdone or ren, "ran-when-not-callable", "read done without request", port="read")
-        level = len(self.pending)
+        level = len(self.pending) + len(self.inmod)
+        iv, ir, ip = obs["m.i.valid"], obs["m.i.ready"], obs["m.i.raw"]
+        ov, ordy, op = obs["m.o.valid"], obs["m.o.ready"], obs["m.o.raw"]
+        # the source half, seen at the wrapped module's input: valid and payload hold until accepted
+        if self.prev_valid and not self.prev_transfer:
+            self.expect(iv, "valid-dropped", f"valid at the module's input fell without a transfer (payload was {self.prev_payload})",
+                        port="write")
+            self.expect(ip == self.prev_payload, "payload-changed",
+                        f"payload at the module's input changed from {self.prev_payload} to {ip} while valid and not accepted",
+                        port="write")
         if wdone:
-            self.pending.append(self._vals(stim, "write.i.data"))
+            self.pending.append(obs["write.raw"])
             self.hit("written")
+        itransfer = bool(iv and ir)
+        if itransfer:  # every written item reaches the module exactly once, in order
+            self.expect(bool(self.pending), "spurious-transfer",
+                        f"the module was handed {ip} but nothing is outstanding", port="write")
+            self.expect(ip == self.pending[0], "sequence-mismatch",
+                        f"the module was handed {ip}, next written item is {self.pending[0]} "
+                        f"({len(self.pending)} outstanding)", port="write")
+            self.inmod.append(self.pending.pop(0))
+            self.hit("handed_to_module")
+        # the sink half, seen at the module's output: read is ready iff valid, consumes exactly the offered payload,
+        # nothing is consumed without an executed read
+        if ren:
+            self.expect(obs["read.runnable"] == ov, "ready-mismatch",
+                        f"read callable={obs['read.runnable']} but the module's output valid={ov}", port="read")
+            self.hit("wrapper_read_ready_judged_valid" if ov else "wrapper_read_ready_judged_not_valid")
         if rdone:
-            got = self._vals(obs, "read.o.data")
-            self.expect(bool(self.pending), "spurious-read", f"read returned {got} but nothing is outstanding")
-            self.expect(got == self.pending[0], "sequence-mismatch",
-                        f"read returned {got}, next written item is {self.pending[0]} ({len(self.pending)} outstanding)")
-            self.pending.pop(0)
+            got = obs["read.raw"]
+            self.expect(bool(ov and ordy), "read-did-not-consume",
+                        f"read executed but the module's output has valid={ov} ready={ordy}", port="read")
+            self.expect(got == op, "data-mismatch", f"read returned {got}, the module offers {op}", port="read")
+            self.expect(bool(self.inmod), "spurious-read", f"read returned {got} but the module holds nothing")
+            want = xform(self.inmod[0], self.iw, self.ow, c.get("xk", 0))
+            self.expect(got == want, "sequence-mismatch",
+                        f"read returned {got}, next item is {self.inmod[0]} which the module emits as {want} "
+                        f"({len(self.inmod)} in the module)")
+            gl = tuple(obs.get("read.o.data" + suf) for suf, _, _, _ in self.oleafs)
+            self.expect(gl == unpack(want, self.oleafs), "data-mismatch",
+                        f"read returned the fields {gl}, the module's output payload has {unpack(want, self.oleafs)}", port="read")
+            self.inmod.pop(0)
             self.hit("read")
+        else:
+            self.expect(not ordy, "consumed-without-read", f"the module's output sees ready={ordy} without an executed read",
+                        port="read")
         if wen and not obs["write.runnable"]:
             self.hit("write_refused")
         if ren and not obs["read.runnable"]:
@@ -318,19 +575,27 @@ class Scen(CompScenario):
             self.hit("write_and_read_same_cycle")
         if stim.get("stall") and wen:
             self.hit("stub_stall_with_write_request")
+        if iv and not ir:
+            self.hit("module_input_stalled")
         if level >= 2:
             self.hit("two_or_more_in_flight")
+        if c.get("oshape") is not None and rdone:
+            self.hit("read_differently_shaped_output")
+            if self.iw == self.ow:
+                self.hit("read_same_width_other_shape")
         self.visit((level, wen, ren, wdone, rdone, stim.get("stall", 0)), nontrivial=bool(wdone or rdone))
+        self.prev_valid, self.prev_transfer, self.prev_payload = iv, itransfer, ip
         self.quiet = self.quiet + 1 if (not wen and ren and not stim.get("stall")) else 0
 
     def finish(self):
-        if self.kind in ("source", "wrap") and self.pending:
+        left = self.pending + self.inmod
+        if self.kind in ("source", "wrap") and left:
             # only decided when the trace really ends with the drain (truncated / shrunk traces do not)
             if self.quiet < self.quiet_bound:
                 return
             self.expect(False, "item-not-emitted",
-                        f"{len(self.pending)} written item(s) never left although the peer was ready for {self.quiet} cycles: "
-                        f"{self.pending[:3]}")
+                        f"{len(left)} written item(s) never left although the peer was ready for {self.quiet} cycles: "
+                        f"{left[:3]}")
 
 
 class Prop(PropBase):
@@ -339,7 +604,9 @@ class Prop(PropBase):
         "quick": {"runs": 2700, "selftest_runs": 4},
         "thorough": {"runs": 30000, "selftest_runs": 32},
     }
-    rule = ("one run = one adapter (StreamSource / StreamSink / StreamModuleWrapper+stub) x payload shape, driven for "
+    rule = ("one run = one adapter (StreamSource / StreamSink / StreamModuleWrapper+stub) x payload shape (unsigned, "
+            "signed, enum, array, flat / nested struct; the wrapped stub's output payload may be shaped differently from "
+            "its input payload), optionally a second producer / consumer / peeking observer, driven for "
             "60-200 cycles by a seeded phase plan (random(p) / consumer stalled / producer starved / both always / "
             "half) and ending with a drain; distinct = distinct (configuration, valid, ready, requests, executed calls, "
             "stall length / outstanding items); non-trivial = valid was high (source, sink) or a call executed (wrapper)")
@@ -347,13 +614,20 @@ class Prop(PropBase):
                     "write_same_cycle_as_transfer", "write_into_empty", "back_to_back_transfers", "ready_without_valid",
                     "read_consumed", "peek_without_read", "read_and_peek_same_cycle", "read_refused_no_valid",
                     "peek_refused_no_valid", "offer_stalled", "read", "write_refused", "read_refused",
-                    "write_and_read_same_cycle", "stub_stall_with_write_request", "two_or_more_in_flight"]
+                    "write_and_read_same_cycle", "stub_stall_with_write_request", "two_or_more_in_flight",
+                    "read_ready_judged_valid", "read_ready_judged_not_valid", "wrapper_read_ready_judged_valid",
+                    "wrapper_read_ready_judged_not_valid", "handed_to_module", "module_input_stalled",
+                    "two_peeks_same_cycle", "two_peeks_without_read", "read_differently_shaped_output",
+                    "payload_signed", "payload_enum", "payload_array", "payload_nested_struct",
+                    "read_same_width_other_shape",
+                    "twin_callers_contend", "twin_caller_served"]
     real = ["transactron.lib.stream.StreamSource", "transactron.lib.stream.StreamSink",
             "transactron.lib.stream.StreamModuleWrapper", "amaranth.lib.stream / wiring.connect",
             "transactron.lib.adapters.AdapterTrans", "TransactionManager + scheduler", "amaranth pysim"]
     stubs = ["cycle driver as stream peer (consumer ready / protocol-abiding producer)",
              "PassThrough: the stream module wrapped by StreamModuleWrapper (1-entry register, 1-entry pipe, or "
-             "amaranth SyncFIFOBuffered, with a free stall input) is defined by the harness",
+             "amaranth SyncFIFOBuffered, with a free stall input; output bits = input bits repeated up to the output "
+             "width xor a constant) is defined by the harness",
              "list reference model (outstanding items)"]
     assumptions = ["'every written item is emitted' has no latency in the statement: an item counts as not emitted when it is "
                    "still outstanding at the end of a run after capacity + 2 cycles without a new write and with the peer always "
@@ -363,21 +637,46 @@ class Prop(PropBase):
     def gen_config(self, rng, tier, idx):
         big = tier == "thorough"
         kind = ["source", "sink", "wrap"][idx % 3]
-        if rng.random() < 0.6:
+        r = rng.random()
+        if r < 0.45:
             shape = rng.choice([1, 8, 10, 16])
-        else:
+        elif r < 0.72:
             shape = [["tag", rng.choice([8, 12])], ["aux", rng.choice([1, 5])]]
             if rng.random() < 0.3:
                 shape.append(["x", 9])
+        else:  # signed, enum, array and nested payloads
+            shape = rng.choice([
+                ["s", rng.choice([2, 8, 13])],
+                ["enum", rng.choice([2, 3])],
+                ["arr", 4, 3],
+                ["arr", ["s", 3], 2],
+                [["tag", 8], ["in", [["x", 3], ["y", ["s", 4]]]], ["e", ["enum", 2]]],
+                [["tag", ["s", 9]], ["v", ["arr", 2, 3]]],
+                ["arr", [["x", 2], ["y", ["s", 3]]], 2],
+            ])
         cycles = rng.randint(60, 400 if big else 200)
         cfg = {"kind": kind, "shape": shape, "cycles": cycles, "twin": int(kind != "source" and rng.random() < 0.3), "sched": rng.choice(["eager", "eager", "rr"]),
                "plan": make_plan(rng, cycles, ["random", "random", "stall", "starve", "full", "half"], min_len=5, max_len=30)}
         if kind == "sink":
             cfg["p_peek"] = rng.choice([0.0, 0.3, 0.7, 1.0])
+            cfg["peek2"] = int(rng.random() < 0.3)
         if kind == "wrap":
             cfg["stub"] = rng.choice(["reg", "pipe", "fifo"])
             cfg["stub_depth"] = rng.choice([2, 3, 4])
             cfg["p_stall"] = rng.choice([0.0, 0.1, 0.4])
+            if rng.random() < 0.4:  # the module's output payload is wider / narrower / differently structured
+                iw = spec_width(shape)
+                if rng.random() < 0.5 and iw >= 2:  # as wide as the input, other meaning
+                    oshape = rng.choice([["s", iw], iw, [["lo", iw // 2], ["hi", ["s", iw - iw // 2]]],
+                                         [["a", iw - 1], ["b", 1]]])
+                else:
+                    oshape = rng.choice([4, 8, 12, 24, ["s", 8], ["s", 16], [["lo", 5], ["hi", ["s", 6]]], ["arr", 3, 4],
+                                         ["enum", 3], [["tag", 8], ["aux", 5]]])
+                if oshape != shape:
+                    cfg["oshape"] = oshape
+                    cfg["xk"] = rng.getrandbits(spec_width(oshape))
+        if kind != "sink":
+            cfg["wtwin"] = int(rng.random() < 0.2)
         return cfg
 
     def make(self, cfg):
@@ -388,13 +687,20 @@ class Prop(PropBase):
 
     def cfg_signature(self, cfg):
         return [cfg["kind"], cfg["shape"], cfg["sched"], cfg.get("stub"), cfg.get("stub_depth"), cfg.get("p_peek"),
-                cfg.get("p_stall"), cfg.get("twin", 0)]
+                cfg.get("p_stall"), cfg.get("twin", 0), cfg.get("oshape"), cfg.get("xk", 0), cfg.get("wtwin", 0),
+                cfg.get("peek2", 0)]
 
     def shrink_cfg(self, cfg):
-        if not isinstance(cfg["shape"], int) and len(cfg["shape"]) > 1:
+        sh = cfg["shape"]
+        if isinstance(sh, list) and isinstance(sh[0], list) and len(sh) > 1:  # a struct: drop its last field
             c = dict(cfg)
-            c["shape"] = cfg["shape"][:-1]
+            c["shape"] = sh[:-1]
             yield c
+        for key in ("wtwin", "peek2", "twin"):
+            if cfg.get(key):
+                c = dict(cfg)
+                c[key] = 0
+                yield c
         if cfg["sched"] != "eager":
             c = dict(cfg)
             c["sched"] = "eager"
